@@ -366,3 +366,223 @@ CHECKS = {
     "C01": check_C01, "C02": check_C02, "C03": check_C03, "C04": check_C04, "C05": check_C05, "C06": check_C06,
     "C08": check_C08, "C09": check_C09, "C11": check_C11, "C14": check_C14, "C15": check_C15,
 }
+
+
+# ---- C10: inner nodes ------------------------------------------------------------------
+
+def split_at(path, marker, max_bytes):
+    """Split a trace whose segments start with `marker` lines and need no header."""
+    if os.path.getsize(path) <= max_bytes:
+        return [path]
+    out, part, size, n = [], None, 0, 0
+    with open(path) as f:
+        for ln in f:
+            if part is None or (size >= max_bytes and ln.startswith(marker)):
+                if part:
+                    part.close()
+                fn = "%s.p%d" % (path, n)
+                n += 1
+                out.append(fn)
+                part = open(fn, "w")
+                size = 0
+            part.write(ln)
+            size += len(ln)
+    if part:
+        part.close()
+    os.remove(path)
+    return out
+
+
+def write_mc_node(work, name, alphabet, emit, guard=True, unsigned=True):
+    mod = "MC_" + name
+    with open(os.path.join(work.specdir, mod + ".tla"), "w") as f:
+        f.write("---- MODULE %s ----\nEXTENDS ArtNode\nMCAlphabet == {%s}\nMCProbes == 0..255\n====\n" % (
+            mod, ", ".join(str(x) for x in alphabet)))
+    with open(os.path.join(work.specdir, mod + ".cfg"), "w") as f:
+        f.write("CONSTANTS\n Alphabet <- MCAlphabet\n Probes <- MCProbes\n EmitEdges = %s\n GuardFill = %s\n Unsigned16 = %s\n" % (
+            "TRUE" if emit else "FALSE", "TRUE" if guard else "FALSE", "TRUE" if unsigned else "FALSE"))
+        f.write("INIT Init\nNEXT Next\nVIEW View\nINVARIANTS LookupOK CountOK EnumOK ClassOK\nCHECK_DEADLOCK FALSE\n")
+    return mod
+
+
+def check_C10(work, prop, tier, seed, t0):
+    q = tier == "quick"
+    drive = build_harness(work)
+    variants = [("amd64", drive)]
+    if not q:
+        variants.append(("386-portable", build_harness(work, "386")))
+    alphabet = [0, 1, 2, 126, 127, 128, 129, 254, 255] if q else [0, 1, 2, 64, 126, 127, 128, 129, 200, 253, 254, 255]
+    mod = write_mc_node(work, "node", alphabet, emit=True)
+    edges = work.path("node-edges.ndjson")
+    r = run_model(work, mod, edges, workers=8, timeout=3000)
+    if r.violation or not r.ok:
+        raise Infra("ArtNode model: %s %s" % (r.violation, r.error or r.out_tail))
+    with open(edges) as f:
+        lines = sorted(set(f.readlines()))
+    with open(edges, "w") as f:
+        f.writelines(lines)
+    model_runs = [{"stage": "model:ArtNode", "alphabet": alphabet, "states": r.states, "transitions": r.transitions,
+                   "emitted": len(lines), "wall_s": round(r.wall, 1)}]
+    files, total_lines, total_ops, segs, samples, kinds = [], 0, 0, 0, [], {}
+    for vname, drv in variants:
+        tr = work.path("node-%s.ndjson" % vname)
+        stf = work.path("node-%s.json" % vname)
+        run_drive(drv, ["node", "-in", edges, "-out", tr, "-seed", str(seed), "-walks", str(6 if q else 24), "-stats", stf])
+        s = json.load(open(stf))
+        total_lines += s["lines"]; total_ops += s["ops"]; segs += s["segments"]
+        for k, v in (s.get("extra") or {}).items():
+            kinds[vname + ":" + k] = v
+        samples += [{"variant": vname, "transition": x} for x in s.get("samples", [])[:2]]
+        files += split_at(tr, '{"op":"nreset"', 3 << 20)
+        pr = work.path("prims-%s.ndjson" % vname)
+        stp = work.path("prims-%s.json" % vname)
+        run_drive(drv, ["prims", "-out", pr, "-seed", str(seed), "-size", "q" if q else "t", "-parts", "16", "-stats", stp])
+        s = json.load(open(stp))
+        total_lines += s["lines"]; total_ops += s["ops"]
+        files += ["%s.%d" % (pr, i) for i in range(16)]
+    t1 = time.time()
+    vres = validate_many(work, files, ["Inv_C10"], module="TraceNode")
+    log("validated %d node trace files (%d lines) in %.1fs" % (len(files), total_lines, time.time() - t1))
+    violations = 0
+    for v in vres:
+        if v.error:
+            raise Infra("trace validation of %s: %s" % (os.path.basename(v.file), v.error))
+        if v.invariant:
+            # node traces are deterministic functions of their input: re-run the same command in a fresh process
+            with open(v.file) as f:
+                lines_ = f.readlines()[:v.line]
+            start = max([i for i, ln in enumerate(lines_) if ln.startswith('{"op":"nreset"')] or [0])
+            seg = lines_[start:] if lines_[-1].startswith('{"op":"A"') or lines_[-1].startswith('{"op":"R"') else [lines_[-1]]
+            path = save_replay(prop, seg)
+            st2, info = confirm_node(work, drive if "386" not in v.file else variants[-1][1], path)
+            if st2 == "confirmed":
+                print("VIOLATION property=%s replay=%s" % (prop, path), flush=True)
+                e = json.loads(seg[-1])
+                print("  %s fails at: %s" % (v.invariant, json.dumps({k: e[k] for k in e if k in ("op", "b", "kind", "n", "w", "pan")})), flush=True)
+                violations = 1
+                break
+            os.remove(path)
+            raise Infra("node violation did not reproduce: %s" % info)
+    cov = {"states": r.states, "transitions": r.transitions, "traces_validated_against_impl": segs,
+           "samples": samples or [{"note": "none"}], "evaluations": total_ops, "distinct_nontrivial": len(lines),
+           "rule": "closure of all add/remove sequences of the ArtNode model over the boundary alphabet (one test per transition, replayed "
+                   "on a real node handle, all 256 probes + both enumerations after the step); random ramps to 256 children and back; "
+                   "primitive sweeps over crafted lanes (4-slot: all words over the alphabet x fill 0..4; 16-slot: fill x lane x value) "
+                   "with 256 probes each; distinct_nontrivial = distinct model transitions replayed",
+           "trace_lines_validated_by_TLC": total_lines, "model_runs": model_runs, "node_states_by_class": kinds,
+           "variants": [v for v, _ in variants], "exhaustive": False}
+    write_evidence(prop, tier, seed, "model_checking", cov, time.time() - t0, violations, ASSUME_BASE + [
+        "node16_arm64.s cannot be executed in this sandbox (no arm64 emulator): only amd64 assembly and (thorough) the portable fallback under GOARCH=386 are bound",
+        "insertPosNode4 is specified as first-greater-or-equal over all four lanes (the code's actual contract), insertPosNode16 as first-greater within the fill count"])
+    if violations:
+        return 1
+    print("%s held: %d model states / %d transitions, %d node histories, %d probe results, %d trace lines validated" % (
+        prop, r.states, r.transitions, segs, total_ops, total_lines), flush=True)
+    return 0
+
+
+def confirm_node(work, drive, path):
+    new = work.fresh("noderun") + ".ndjson"
+    p = run_drive(drive, ["noderun", "-in", path, "-out", new], allow_fail=True)
+    if p.returncode != 0:
+        return ("confirmed", "driver crashed: " + p.stderr[-800:])
+    v = validate_trace(work, new, ["Inv_C10"], module="TraceNode")
+    if v.invariant:
+        return ("confirmed", v.invariant)
+    if v.error:
+        raise Infra(v.error)
+    return ("unreproduced", None)
+
+
+CHECKS["C10"] = check_C10
+PROP_INVS["C10"] = ["Inv_C10"]
+
+
+# ---- C07: numeric encodings ----------------------------------------------------------------
+
+def check_C07(work, prop, tier, seed, t0):
+    q = tier == "quick"
+    drive = build_harness(work)
+    # (a) the design, exhaustively for the 8-bit types / minifloat and 16-bit adjacent pairs
+    r = run_model(work, "MC_Codec", work.path("none.ndjson"), workers=4, timeout=1800)
+    if r.violation or not r.ok:
+        raise Infra("Codec model: %s %s" % (r.violation, r.error or r.out_tail))
+    model_runs = [{"stage": "model:Codec", "checked": "all pairs of u8, i8, f8 (1-4-3 minifloat); all adjacent pairs of u16, i16",
+                   "states": r.states, "transitions": r.transitions, "wall_s": round(r.wall, 1)}]
+    # (b) the real Transform/Restore
+    variants = [("amd64", drive)] + ([] if q else [("386", build_harness(work, "386"))])
+    files, recs, lines, batches, samples = [], 0, 0, 0, []
+    for vname, drv in variants:
+        out = work.path("codec-%s.ndjson" % vname)
+        stf = work.path("codec-%s.json" % vname)
+        run_drive(drv, ["codec", "-out", out, "-seed", str(seed), "-nrand", str(6000 if q else 100000), "-tuples", str(6 if q else 30),
+                        "-parts", "16", "-stats", stf])
+        s = json.load(open(stf))
+        recs += s["ops"]; lines += s["lines"]; batches += s["segments"]
+        samples += [{"variant": vname, "pattern": x} for x in s.get("samples", [])]
+        files += ["%s.%d" % (out, i) for i in range(16)]
+    files = [f for f in files if os.path.getsize(f) > 0]
+    t1 = time.time()
+    vres = validate_many(work, files, ["WellSorted", "Inv_C07"], module="TraceCodec")
+    log("validated %d codec trace files (%d records) in %.1fs" % (len(files), recs, time.time() - t1))
+    violations = 0
+    for v in vres:
+        if v.error:
+            raise Infra("trace validation of %s: %s" % (os.path.basename(v.file), v.error))
+        if v.invariant == "WellSorted":
+            raise Infra("codec batch not sorted by the specification's order (harness oracle and Codec!ValueLess disagree) at %s:%s" % (v.file, v.line))
+        if v.invariant:
+            with open(v.file) as f:
+                ls = f.readlines()
+            seg = ls[max(0, v.line - 2):v.line]
+            if seg[-1].startswith('{"op":"batch"'):
+                seg = seg[-1:]
+            elif len(seg) == 2 and not seg[0].startswith('{"op":"cont"'):
+                pass
+            path = save_replay(prop, seg)
+            drv = variants[-1][1] if "386" in v.file else drive
+            st2 = confirm_codec(work, drv, path)
+            if st2 == "confirmed":
+                print("VIOLATION property=%s replay=%s" % (prop, path), flush=True)
+                e = json.loads(seg[-1])
+                print("  Inv_C07 fails in a batch of type %s (width %d)" % (e["ty"], e["w"]), flush=True)
+                violations = 1
+                break
+            os.remove(path)
+            raise Infra("codec violation did not reproduce")
+    # conformance to the transcribed design (informative only)
+    design = None
+    if not violations:
+        dv = validate_many(work, files[:4], ["Design_C07"], module="TraceCodec")
+        design = all(x.ok for x in dv)
+    cov = {"states": r.states, "transitions": r.transitions, "traces_validated_against_impl": batches,
+           "samples": samples or [{"note": "none"}], "evaluations": recs, "distinct_nontrivial": recs,
+           "rule": "per type: all 2^8 / 2^16 patterns of the 8/16-bit types; for 32/64-bit and floats products of boundary bytes at all "
+                   "byte positions, +-2 neighbours of every special (zeros, subnormal edges, max finite, infinities, NaN payloads, type "
+                   "min/max) and seeded random patterns; de-duplicated, sorted by the oracle; every record and every adjacent pair judged "
+                   "by TLC; distinct_nontrivial = distinct bit patterns encoded",
+           "trace_lines_validated_by_TLC": lines, "model_runs": model_runs, "variants": [v for v, _ in variants],
+           "encoder_equals_transcribed_design": design, "exhaustive": False,
+           "exhaustive_for": "8-bit and 16-bit types (real code); 8-bit types and 1-4-3 minifloat (design, all pairs)"}
+    write_evidence(prop, tier, seed, "model_checking", cov, time.time() - t0, violations, ASSUME_BASE + [
+        "32/64-bit domains are covered by structured and random batches, not exhaustively",
+        "the oracle order is Go's native < on the decoded values and the float order of the statement; TLC re-derives it on bit patterns (WellSorted) before judging"])
+    if violations:
+        return 1
+    print("%s held: design exhaustive for 8-bit types (TLC), %d real records in %d batches validated" % (prop, recs, batches), flush=True)
+    return 0
+
+
+def confirm_codec(work, drive, path):
+    new = work.fresh("codecrun") + ".ndjson"
+    p = run_drive(drive, ["codecrun", "-in", path, "-out", new], allow_fail=True)
+    if p.returncode != 0:
+        return "confirmed"
+    v = validate_trace(work, new, ["Inv_C07"], module="TraceCodec")
+    if v.error:
+        raise Infra(v.error)
+    return "confirmed" if v.invariant else "unreproduced"
+
+
+CHECKS["C07"] = check_C07
+PROP_INVS["C07"] = ["Inv_C07"]
